@@ -21,6 +21,9 @@ func init() {
 		ruleA2(c, "C08.G6")
 		ruleS3(c, "C08.G7")
 		ruleT3(c, "C08.G8")
+		// a handle goes stale when its object is removed, and stays stale: the removal is durable when it is
+		// acknowledged - the asynchronous commit is for WRITE only
+		ruleU1(c, "C08.G9")
 	}
 }
 
